@@ -32,7 +32,11 @@ def main():
                 print("build failed at", c[:8], b.stderr[:300], file=sys.stderr)
                 continue
             for f in sorted(failing):
-                r = subprocess.run([os.path.join(d, "w"), "replay", "-file", f], capture_output=True, text=True, env=dict(ENV, PATH=os.environ["PATH"]))
+                try:
+                    r = subprocess.run("ulimit -v 6000000; exec %s replay -file %s" % (os.path.join(d, "w"), f), shell=True, capture_output=True, text=True,
+                                       env=dict(ENV, PATH=os.environ["PATH"]), timeout=6)
+                except subprocess.TimeoutExpired:
+                    continue
                 ok = False
                 if r.returncode == 0:
                     for ln in r.stdout.splitlines():
